@@ -39,8 +39,8 @@ THEOREMS = [
     _G + "extract_id_spec",
     _G + "record_valid",
     _G + "reparse_url_public_link",
-    _G + "reparse_url_file_partial",
-    _G + "fullReparseFile_false",
+    _G + "reparse_url_file",
+    _G + "reparse_url",
 ]
 TABLE_OBLIGATIONS = [
     _Y + "youtube_patterns_unchanged",
@@ -54,7 +54,7 @@ TABLE_OBLIGATIONS = [
     _G + "drive_types_plain",
 ]
 RULE = (
-    "yt: corpus (every fixed C19 finding of youtube.py/google.py + the known findings' witnesses), then every path of 0-3 "
+    "yt: corpus (every fixed C19 finding of youtube.py/google.py, incl. the four repaired on this part's report, + the witnesses of the known findings KF-C19-YT-4/5), then every path of 0-3 "
     "(quick) / 0-4 + sampled 5 (thorough) segments over the route vocabulary {watch, embed, v, video, shorts, channel, user, c, "
     "playlist, feed, results, about, t} and id-like (11 chars), too-long (12), too-short (5), channel-id-like (UC+22), handle-like "
     "(@x, x, @, @@x, @watch), empty, blank, trailing-blank, '&'/'%'/non-ASCII segments, with and without a trailing slash on "
@@ -69,8 +69,8 @@ RULE = (
     "is on a youtube host; id: length within 2 of the validator's; g: a function returns a record / True / a string. Distinct = distinct case."
 )
 EXHAUSTIVE = {
-    "quick": "yt: all paths of 0-3 segments over a 28-segment vocabulary x trailing slash on youtube.com; all paths of 0-2 segments x 14 hosts x 4 scheme forms; "
-    "13 route paths x 4 hosts x all ordered 0-2 query items over 15 items (0-3 on youtube.com/watch) ; x 6 fragments. "
+    "quick": "yt: all paths of 0-3 segments over a 31-segment vocabulary x trailing slash on youtube.com; all paths of 0-2 segments x 14 hosts x 4 scheme forms; "
+    "13 route paths x 4 hosts x all ordered 0-2 query items over 17 items (0-3 on youtube.com/watch) ; x 6 fragments. "
     "g: all paths of 0-3 segments over a 17-segment vocabulary x trailing slash on docs.google.com; 0-2 segments x 9 hosts x 10 queries",
     "thorough": "as quick, with paths of 0-4 segments (5 segments sampled), 0-3 query items on every route path, g: paths of 0-4 segments",
 }
@@ -93,16 +93,16 @@ ASSUMPTIONS = [
     "True, as normalize_youtube_url calls the parser), record.url for google drive",
 ]
 UNPROVED = (
-    "youtube: parse(canonical url of r) == r is proved on the region Residual (reparse_url_partial): playlist ids without '?', '/', '%'; user "
-    "names / channel ids without '&', '%' and without trailing white space; channel names without '&', '%' and not in "
-    "YOUTUBE_CHANNEL_NAME_BLACKLIST (everything else the proof needs - no '/', '?', '#', TAB/CR/LF in a name, a non-empty playlist id without "
-    "'&', '#' - is PROVED to be guaranteed by the parser: record_fields, record_valid); full for shorts and videos without playlist. Outside Residual the statement "
-    "is FALSE (fullReparse_false, fullIdempotent_false; known findings KF-C19-YT-1 reserved name behind '@', KF-C19-YT-2 trailing blank, "
-    "KF-C19-YT-3 redirect hint inside a field); the remaining excluded shapes ('%' or '/' inside a playlist id, '%' inside a name) are "
-    "explored by the oracle on every run, no failure known. normalize_youtube_url idempotent: full on urls that do not parse, on Residual "
-    "otherwise. google: reparse full for public links, for files under 'the id does not end with white space' (fullReparseFile_false: "
-    "KF-C19-YT-2). is_youtube_url / is_amp_url / is_google_link / extract_url_from_google_link / is_youtube_*_id: no raise site in the model "
-    "(total by construction), their agreement with the code is differential only."
+    "youtube: parse(canonical url of r) == r is proved on the region Residual (reparse_url_partial): names / channel ids without '%', playlist "
+    "ids without '/' and '%' - everything else the proof needs (no '/', '?', '#', '&', TAB/CR/LF, no blank at either end of a user name / "
+    "channel id, channel name not reserved and without leading '@', non-empty playlist id without '&', '#', '?') is PROVED to be guaranteed "
+    "by the parser as repaired (record_fields, record_valid); full for shorts and videos without playlist. Outside Residual the statement is "
+    "FALSE (fullReparse_false, fullIdempotent_false): '%' in a name = KF-C19-YT-4 (a continuation pattern hidden from the regexes by a "
+    "TAB/CR/LF that urlsplit removes), '%' in a playlist id = KF-C19-YT-5 (two continuation patterns); '/' inside a playlist id is only a "
+    "limit of the proof (explored by the oracle on every run, no failure known). normalize_youtube_url idempotent: full on urls that do not "
+    "parse, on Residual otherwise. google: reparse_url FULL for both record types. is_youtube_url / is_amp_url / is_google_link / "
+    "extract_url_from_google_link / is_youtube_*_id: no raise site in the model (total by construction), their agreement with the code is "
+    "differential only."
 )
 
 ID = "dQw4w9WgXcQ"
@@ -115,7 +115,7 @@ PL = "PLx0sYbCqOb8TBPRdmBHs5Iftvv9TPboYG"
 # --------------------------------------------------------------------------------------
 YT_SEGS = [
     "watch", "embed", "v", "video", "shorts", "channel", "user", "c", "playlist", "feed", "results", "about", "t",
-    ID, ID + "x", "short", CID, "@handle", "handle", "@", "@@h", "@watch", "", " ", "x ", "a&b", "a%20b", "é日",
+    ID, ID + "x", "short", CID, "@handle", "handle", "@", "@@h", "@watch", "", " ", "x ", "a&b", "a%20b", "é日", "&x", "x&u=%2Fy", "ne\txt=%2Fwatch%3Fv%3D" + ID2,
 ]
 YT_HOSTS = [
     "youtube.com", "www.youtube.com", "m.youtube.com", "youtube.fr", "youtube.co.uk", "music.youtube.com", "youtu.be", "www.youtu.be",
@@ -129,6 +129,7 @@ YT_QHOSTS = ["youtube.com", "youtu.be", "m.youtube.com", "a.com"]
 YT_QITEMS = [
     "v=" + ID, "v=short", "v=" + ID + "xyz", "V=" + ID2, "list=" + PL, "list=", "list=a?u=http://x.com/", "feature=share", "q=1", "u=/x",
     "url=http%3A%2F%2Fyoutu.be%2F" + ID, "next=%2Fwatch%3Fv%3D" + ID, "t=1", "v", "amp;v=" + ID,
+    "list=next=%2Fwatch%3Fv%3D" + ID2, "x=next%3D%252Fwatch%253Fv%253DAAAAAAAAAAA",
 ]
 YT_FRAGS = ["", "#f", "#/watch?v=" + ID, "#%2Fwatch%3Fv%3D" + ID2, "#!/watch?v=" + ID, "#/watch?v=short"]
 NON_PLATFORM = [
@@ -153,9 +154,17 @@ CORPUS_YT = [
     "youtube.com/@", "youtube.com/user//x", "youtube.com/c/@", "youtube.com/channel//x",  # FX-C19-a81c7bc
     "youtube.com/c/feed", "youtube.com/c/@watch",  # FX-C19-ae83214
     "youtube.com/user/", "youtube.com/c/", "youtube.com/channel/", "youtube.com/shorts/", "youtube.com/v/", "youtube.com/embed/", "youtube.com/video/",
-    # witnesses of the known findings of this part
-    "youtube.com/@watch", "youtube.com/@feed/", "youtube.com/user/x /", "youtube.com/channel/x /", "youtube.com/user/ /",
-    "https://www.youtube.com/watch?v=" + ID + "&q=zzz&list=a?u=http://x.com/", "q=1@youtube.com/user/a&u=%2Fx",
+    "youtube.com/@watch", "youtube.com/@feed/", "youtube.com/@@results",  # FX-C19-55c9bda reserved name behind '@'
+    "youtube.com/user/x /", "youtube.com/channel/x /", "youtube.com/user/ /", "youtube.com/channel/ /", "youtube.com/user/x\x1f/y",  # FX-C19-d47b8e8 trailing blank
+    "https://www.youtube.com/watch?v=" + ID + "&q=zzz&list=a?u=http://x.com/", "youtu.be/" + ID + "?u=abc&list=PL?url=http://x.com/",  # FX-C19-569f4b6
+    "q=1@youtube.com/user/a&u=%2Fx", "q=1@youtube.com/channel/a&u=%2Fx", "q=1@youtube.com/c/a&u=%2Fx", "q=1@youtube.com/a&u=%2Fx",  # FX-C19-716cf1e
+    # witnesses of the known finding KF-C19-YT-4 (TAB / CR / LF inside a continuation pattern held by a name)
+    "youtube.com/user/ne\txt=%2Fwatch%3Fv%3D" + ID, "youtube.com/ne\rxt%3D%252Fwatch%253Fv%253D" + ID, "youtube.com/channel/ne\nxt=%2Fwatch%3Fv%3Dshort",
+    "youtube.com/c/next=%2\tFwatch%3Fv%3D" + ID2, "https://www.google.com/url?q=https%3A%2F%2Fyoutube.com%2Fne%09xt%3D%252Fwatch%253Fv%253D" + ID2, "youtube.com/watch?v=" + ID + "&list=a\tb", "youtube.com/user/x\ty",
+    # witnesses of the known finding KF-C19-YT-5 (a continuation pattern inside the playlist id competes with another one)
+    "youtube.com/next=%2Fwatch%3Fv%3DAAAAAAAAAAA?list=next=%2Fwatch%3Fv%3DBBBBBBBBBBB", "youtube.com/watch?v=AAAAAAAAAAA&x=next%3D%252Fwatch%253Fv%253D" + ID + "&list=next=%2Fwatch%3Fv%3D" + ID2,
+    "youtu.be/AAAAAAAAAAA?list=next=%2Fwatch%3Fv%3DBBBBBBBBBBB", "youtube.com/watch?v=AAAAAAAAAAA&list=PL%20x", "youtube.com/watch?v=AAAAAAAAAAA&list=a/b/.ampproject.org/c/",
+    "youtube.com/user/x&feature=share", "youtube.com/@x&t=1", "youtube.com/user/&x", "youtube.com/watch&v=" + ID, "youtube.com/c/@&@x",
 ]
 G_SEGS = ["document", "spreadsheets", "presentation", "forms", "d", "e", "pub", "edit", "url", "amp", "x.amp", "x.amp.html", "1BxiMVs0XRA5nFMd", "", " ", "x ", "é"]
 G_HOSTS = ["docs.google.com", "google.com", "www.google.fr", "drive.google.com", "cdn.ampproject.org", "amp.a.com", "amp-a.com", "a.com", "xdocs.google.com.evil.org"]
@@ -170,8 +179,7 @@ CORPUS_G = [
     "https://www.google.com/url?sa=t&url=https%3A%2F%2Fwww.lemonde.fr%2F&usg=x", "https://www.google.com/url?url=", "url=x", "http://a.com/?xurl=1&url=2",
     "https://www.europe1.fr/sante/x.amp", "https://a.com/amp/x", "https://a.com/x.amp.html", "https://a.com/x/amp", "https://a.com/x/amp/", "https://a.com/xamp",
     "https://a.com/x.AMP", "https://a.com/x.amp.htm", "https://a.com/p?amp_js=1", "https://a.com/p?amp_", "https://a.com/p?AMP_x", "https://a.com/p?amp", "amp", "/amp", "x/amp\n",
-    # witness of the known finding of this part
-    "docs.google.com/document/d/x /edit",
+    "docs.google.com/document/d/x /edit", "docs.google.com/document/d/ /edit", "https://docs.google.com/spreadsheets/d/x /",  # FX-C19-d47b8e8
 ]
 
 
@@ -558,81 +566,36 @@ def oracle(case):
 # --------------------------------------------------------------------------------------
 # known findings of this part (KNOWN_FINDINGS.json): each predicate recognises exactly one class
 # --------------------------------------------------------------------------------------
-def _is_roundtrip_failure(failure):
-    return failure.startswith("reparse:") or failure.startswith("idempotence:")
-
-
-def _looked_at(url):
-    """(path, …) the parser routes on: the split of the url after infer_redirection — computed here with urllib only"""
-    from ural.infer_redirection import infer_redirection
-    from ural.utils import safe_urlsplit
-
-    try:
-        return safe_urlsplit(infer_redirection(url))
-    except Exception:  # noqa
-        return None
-
-
-def kf_yt_reserved_name_behind_at(case, failure):
-    """youtube.com/@watch: the final `else` of parse_youtube_url consults the blacklist BEFORE removing the leading '@'s,
-    so a reserved path behind an '@' becomes a channel name whose canonical url (youtube.com/watch) is the reserved page.
-    Exactly: the path is '/' + '@'… + <reserved word> (+ '/'…), the record is the channel of that name, its url parses to None."""
+def kf_yt_continuation_pattern_behind_tab(case, failure):
+    """'youtube.com/user/ne<TAB>xt=%2Fwatch%3Fv%3D<id>': NEXT_V_RE / NESTED_NEXT_V_RE are searched in the raw url, where the TAB
+    (CR, LF) hides the pattern; urlsplit removes the TAB, so the user / channel name holds the pattern, and so does the canonical
+    url, which then parses to a video (or None).  Exactly: a round-trip failure whose record is a user / channel with a field
+    in which one of the two continuation patterns matches."""
     from ural import youtube as y
 
-    if case.get("k") != "yt" or not _is_roundtrip_failure(failure):
+    if case.get("k") != "yt" or not (failure.startswith("reparse:") or failure.startswith("idempotence:")):
         return False
     p = _safe(y.parse_youtube_url, case["url"])
-    sp = _looked_at(case["url"])
-    if sp is None or not (isinstance(p, y.YoutubeChannel) and p.id is None and p.name in y.YOUTUBE_CHANNEL_NAME_BLACKLIST):
+    if isinstance(p, y.YoutubeUser):
+        f = p.name
+    elif isinstance(p, y.YoutubeChannel):
+        f = p.id if p.id is not None else p.name
+    else:
         return False
-    path = sp.path.rstrip("/")
-    return path.count("/") == 1 and path.startswith("/@") and path.lstrip("/").lstrip("@") == p.name and \
-        _safe(y.parse_youtube_url, _safe(y.normalize_youtube_url, case["url"])) is None
+    return bool(y.NEXT_V_RE.search(f) or y.NESTED_NEXT_V_RE.search(f))
 
 
-def kf_trailing_blank_id(case, failure):
-    """'youtube.com/user/x /', 'youtube.com/channel/x /', 'docs.google.com/document/d/x /edit': a user name / channel id /
-    drive file id taken from the middle of the path keeps its trailing blank; at the END of the canonical url that blank is
-    removed by pathsplit's strip().  Exactly: the field ends with white space and the canonical url parses to the same record
-    with the field right-stripped (None when nothing is left)."""
-    from ural import google as g
+def kf_yt_continuation_pattern_in_playlist(case, failure):
+    """'youtube.com/next=%2Fwatch%3Fv%3D<A>?list=next=%2Fwatch%3Fv%3D<B>': the video id is taken from the LEFTMOST continuation
+    pattern (or from NEXT_V_RE before NESTED_NEXT_V_RE), the playlist id holds another one; in the canonical url
+    '…watch?v=<A>&list=next=%2Fwatch%3Fv%3D<B>' the only pattern left is the one inside the playlist id: it parses to the video <B>.
+    Exactly: a round-trip failure whose record is a video with a playlist id in which a continuation pattern matches."""
     from ural import youtube as y
 
-    if not _is_roundtrip_failure(failure):
+    if case.get("k") != "yt" or not (failure.startswith("reparse:") or failure.startswith("idempotence:")):
         return False
-    if case.get("k") == "yt":
-        p = _safe(y.parse_youtube_url, case["url"])
-        p2 = _safe(y.parse_youtube_url, _safe(y.normalize_youtube_url, case["url"]))
-        if isinstance(p, y.YoutubeUser):
-            f = p.name
-            want = y.YoutubeUser(id=None, name=f.rstrip()) if f.rstrip() else None
-        elif isinstance(p, y.YoutubeChannel) and p.id is not None:
-            f = p.id
-            want = y.YoutubeChannel(id=f.rstrip(), name=None) if f.rstrip() else None
-        else:
-            return False
-        return f.rstrip() != f and p2 == want
-    if case.get("k") == "g":
-        p = _safe(g.parse_google_drive_url, case["url"])
-        if p.__class__ is not g.GoogleDriveFile or p.id.rstrip() == p.id:
-            return False
-        p2 = _safe(g.parse_google_drive_url, p.url)
-        want = g.GoogleDriveFile(p.type, p.id.rstrip()) if p.id.rstrip() else None
-        return p2 == want
-    return False
-
-
-def kf_yt_redirect_hint_in_field(case, failure):
-    """'https://www.youtube.com/watch?v=<id>&q=1&list=a?u=http://x.com/': infer_redirection only looks at the LEFTMOST hint;
-    in the input an earlier inert hint (q=…, u=abc) masks the one inside the playlist / name, in the canonical url nothing
-    does, so the canonical url is itself followed as a redirection."""
-    from ural import youtube as y
-    from ural.infer_redirection import infer_redirection
-
-    if case.get("k") != "yt" or not _is_roundtrip_failure(failure):
-        return False
-    n = _safe(y.normalize_youtube_url, case["url"])
-    return isinstance(n, str) and _safe(infer_redirection, n) != n and _safe(infer_redirection, case["url"]) is not None
+    p = _safe(y.parse_youtube_url, case["url"])
+    return isinstance(p, y.YoutubeVideo) and bool(p.playlist) and bool(y.NEXT_V_RE.search(p.playlist) or y.NESTED_NEXT_V_RE.search(p.playlist))
 
 
 # --------------------------------------------------------------------------------------
